@@ -2234,6 +2234,49 @@ func (d *Document) parseParagraphProperties(decoder *xml.Decoder, paragraph *Par
 				if err := d.skipElement(decoder, t.Name.Local); err != nil {
 					return err
 				}
+			case "keepNext":
+				// 与下一段保持在一起
+				paragraph.Properties.KeepNext = &KeepNext{Val: getAttributeValue(t.Attr, "val")}
+				if err := d.skipElement(decoder, t.Name.Local); err != nil {
+					return err
+				}
+			case "keepLines":
+				// 段落中的行保持在一起
+				paragraph.Properties.KeepLines = &KeepLines{Val: getAttributeValue(t.Attr, "val")}
+				if err := d.skipElement(decoder, t.Name.Local); err != nil {
+					return err
+				}
+			case "pageBreakBefore":
+				// 段前分页
+				paragraph.Properties.PageBreakBefore = &PageBreakBefore{Val: getAttributeValue(t.Attr, "val")}
+				if err := d.skipElement(decoder, t.Name.Local); err != nil {
+					return err
+				}
+			case "widowControl":
+				// 孤行控制
+				paragraph.Properties.WidowControl = &WidowControl{Val: getAttributeValue(t.Attr, "val")}
+				if err := d.skipElement(decoder, t.Name.Local); err != nil {
+					return err
+				}
+			case "outlineLvl":
+				// 大纲级别
+				paragraph.Properties.OutlineLevel = &OutlineLevel{Val: getAttributeValue(t.Attr, "val")}
+				if err := d.skipElement(decoder, t.Name.Local); err != nil {
+					return err
+				}
+			case "snapToGrid":
+				// 网格对齐
+				paragraph.Properties.SnapToGrid = &SnapToGrid{Val: getAttributeValue(t.Attr, "val")}
+				if err := d.skipElement(decoder, t.Name.Local); err != nil {
+					return err
+				}
+			case "pBdr":
+				// 段落边框
+				border, err := d.parseParagraphBorder(decoder)
+				if err != nil {
+					return err
+				}
+				paragraph.Properties.ParagraphBorder = border
 			case "numPr":
 				// 编号属性
 				numPr, err := d.parseNumberingProperties(decoder)
@@ -2256,6 +2299,45 @@ func (d *Document) parseParagraphProperties(decoder *xml.Decoder, paragraph *Par
 		case xml.EndElement:
 			if t.Name.Local == "pPr" {
 				return nil
+			}
+		}
+	}
+}
+
+// parseParagraphBorder 解析段落边框
+func (d *Document) parseParagraphBorder(decoder *xml.Decoder) (*ParagraphBorder, error) {
+	border := &ParagraphBorder{}
+
+	for {
+		token, err := decoder.Token()
+		if err != nil {
+			return nil, WrapError("parse_paragraph_border", err)
+		}
+
+		switch t := token.(type) {
+		case xml.StartElement:
+			line := &ParagraphBorderLine{
+				Val:   getAttributeValue(t.Attr, "val"),
+				Color: getAttributeValue(t.Attr, "color"),
+				Sz:    getAttributeValue(t.Attr, "sz"),
+				Space: getAttributeValue(t.Attr, "space"),
+			}
+			switch t.Name.Local {
+			case "top":
+				border.Top = line
+			case "left":
+				border.Left = line
+			case "bottom":
+				border.Bottom = line
+			case "right":
+				border.Right = line
+			}
+			if err := d.skipElement(decoder, t.Name.Local); err != nil {
+				return nil, err
+			}
+		case xml.EndElement:
+			if t.Name.Local == "pBdr" {
+				return border, nil
 			}
 		}
 	}
